@@ -88,6 +88,10 @@ func c12Types(thorough bool) []c12Type {
 	add(symbols.NewStructType(n("/kind"), ast.NameBound, f, ast.NumberBound))
 	add(symbols.NewStructType(n("/kind"), symbols.NewSingletonType(n("/k1")), f, ast.NumberBound))
 	add(symbols.NewStructType())
+	// unions whose alternatives are unions that partly overlap other types
+	add(symbols.NewUnionType(symbols.NewUnionType(n("/a"), ast.NumberBound), ast.StringBound))
+	add(symbols.NewUnionType(ast.StringBound, symbols.NewUnionType(ast.NumberBound, n("/a/b"))))
+	add(symbols.NewUnionType(symbols.NewUnionType(n("/a/b"), n("/b")), symbols.NewUnionType(ast.NumberBound, ast.Float64Bound)))
 	// only optional fields: the empty struct is a member
 	add(symbols.NewStructType(symbols.NewOpt(g, ast.NumberBound)))
 	add(symbols.NewStructType(symbols.NewOpt(f, ast.StringBound), symbols.NewOpt(g, ast.NumberBound)))
